@@ -114,6 +114,23 @@ func runCheck(prop, tier string) int {
 			break
 		}
 	}
+	if os.Getenv("VERIF_SUMMARY") != "" {
+		groups := map[string]int{}
+		ex := map[string]string{}
+		for _, v := range out.Violations {
+			k := v.Summary
+			if i := strings.Index(k, ":"); i > 0 {
+				k = k[:i]
+			}
+			groups[k]++
+			if ex[k] == "" {
+				ex[k] = v.Summary
+			}
+		}
+		for k, n := range groups {
+			fmt.Printf("  [%d of first %d] %s\n      e.g. %s\n", n, len(out.Violations), k, ex[k])
+		}
+	}
 	fmt.Printf("FAIL property=%s tier=%s violations=%d (distinct shown: %d)\n", prop, tier, out.ViolationN, shown)
 	return 1
 }
